@@ -15,7 +15,9 @@ RULE = ("Hypothesis draws a creation configuration and a reopening configuration
         "one key missing / one value None / extra keys), the reopen configuration being derived from "
         "the creation one by 0-2 field edits so that near-misses dominate; the store path is absent, an "
         "empty directory or a directory with an unrelated file; the store is left empty or populated "
-        "(objects, shared objects, metadata); optionally hashstore.yaml is removed before reopening. "
+        "(objects, shared objects, metadata); optionally hashstore.yaml is removed before reopening; optionally an "
+        "earlier store with another configuration was created, used and removed at the same path in the same "
+        "process. "
         "Oracle: creation succeeds <=> its configuration is valid; reopen succeeds <=> creation "
         "succeeded, the yaml is present and the four values are equal (integers compared as "
         "integers). Success => every object / document stored before is served with the same bytes "
@@ -61,7 +63,12 @@ def _case(draw, tier):
             "keyset_key": draw(st.sampled_from(KEYS)),
             "path_state": draw(st.sampled_from(["absent", "absent", "empty-dir", "unrelated-file"])),
             "populated": draw(st.booleans()), "yaml_removed": draw(st.sampled_from([False] * 5 + [True])),
-            "bad_int": draw(st.sampled_from([None] * 9 + ["x"]))}
+            "bad_int": draw(st.sampled_from([None] * 9 + ["x"])),
+            # an EARLIER store with another configuration lived at the same path in this process and was removed
+            "previous_life": draw(st.sampled_from([None, None, {"store_depth": 2, "store_width": 3, "store_algorithm": "SHA-384",
+                                                                 "store_metadata_namespace": "http://ns.example/previous"},
+                                                   {"store_depth": 3, "store_width": 2, "store_algorithm": "SHA-256",
+                                                    "store_metadata_namespace": NSS[0]}]))}
 
 
 def strategy(tier):
@@ -78,6 +85,14 @@ def _props(root, vals, enc):
 def run_case(case, ctx):
     parent = ctx.scratch("c14")
     root = os.path.join(parent, "st")
+    if case.get("previous_life"):
+        prev = call(common.hs().FileHashStore, dict(case["previous_life"], store_path=root))
+        if is_ok(prev):
+            call(prev[1].store_object, "old", common.write_file(os.path.join(parent, "oldobj"), b"previous life"))
+            call(common.hs().FileHashStore, dict(case["previous_life"], store_path=root))   # a reopen, too
+        shutil.rmtree(root, ignore_errors=True)
+        os.remove(os.path.join(parent, "oldobj"))
+        ctx.classify("path-had-a-previous-store")
     if case["path_state"] != "absent":
         os.makedirs(root)
         if case["path_state"] == "unrelated-file":
@@ -162,7 +177,7 @@ def run_case(case, ctx):
     ctx.classify("reopen-" + ("accepted" if is_ok(out) else "refused"))
     if len(differing) == 1 or enc_only or ks != "exact" or case["yaml_removed"]:
         ctx.nontrivial([differing, case["enc_c"], case["enc_r"], ks, case["path_state"], case["populated"],
-                        case["yaml_removed"]])
+                        case["yaml_removed"], bool(case.get("previous_life"))])
         ctx.sample({"create": create, "reopen": {k: props.get(k, "<missing>") for k in KEYS}, "keyset": ks,
                     "yaml_removed": case["yaml_removed"], "populated": case["populated"],
                     "outcome": "accepted" if is_ok(out) else out[1]})
